@@ -11,7 +11,7 @@ func init() {
 		ID:         "C20",
 		Level:      "other",
 		Technique:  "dispatch-table agreement of the JSON well-known-type codec, kind-context table conformance of the JSON scalar encoder/decoder, float width provenance, error-drop discipline on the JSON writer, structural pairing of object/array delimiters (static)",
-		Explain:    "Decides structural necessary conditions of the protojson round trip: (1) encoder and decoder dispatch tables for well-known types cover the same message names with marshalX/unmarshalX pairs; (2) in every Kind-dependent branch of the JSON encoder and decoder the representation class (number, quoted 64-bit integer, string, base64 bytes, enum) and the bit sizes match the Kind per the proto3 JSON mapping, so what the encoder writes for a Kind is what the decoder reads for it; (3) float32 values are formatted and parsed at width 32 (no double rounding); (4) no error of the JSON writer (invalid UTF-8 in WriteString/WriteName) is dropped except where the written text is produced by the library itself (reviewed table); (5) the JSON string scanner never writes into its input buffer (Any decoding scans the same bytes twice: once with a look-ahead clone to find @type, once for real); (6) every StartObject/StartArray is closed by the matching End call on all paths (immediately or deferred). Also decided: field names are written only from JSONName()/TextName(), the inverses of the reader's lookups (R-NAME-ACCESSOR-PAIR); the codec uses one resolver throughout (R-RESOLVER-PROP); the JSON string writer and reader agree on every escape, including four-digit \\u escapes for every control character (R-JSON-ESCAPES, shared with C21). Also: the value of an Any rebuilt from its expanded JSON form is marshaled with Deterministic: true.",
+		Explain:    "Decides structural necessary conditions of the protojson round trip: (1) encoder and decoder dispatch tables for well-known types cover the same message names with marshalX/unmarshalX pairs; (2) in every Kind-dependent branch of the JSON encoder and decoder the representation class (number, quoted 64-bit integer, string, base64 bytes, enum) and the bit sizes match the Kind per the proto3 JSON mapping, so what the encoder writes for a Kind is what the decoder reads for it; (3) float32 values are formatted and parsed at width 32 (no double rounding); (4) no error of the JSON writer (invalid UTF-8 in WriteString/WriteName) is dropped except where the written text is produced by the library itself (reviewed table); (5) the JSON string scanner never writes into its input buffer (Any decoding scans the same bytes twice: once with a look-ahead clone to find @type, once for real); (6) every StartObject/StartArray is closed by the matching End call on all paths (immediately or deferred). Also decided: field names are written only from JSONName()/TextName(), the inverses of the reader's lookups (R-NAME-ACCESSOR-PAIR); the codec uses one resolver throughout (R-RESOLVER-PROP); the JSON string writer and reader agree on every escape, including four-digit \\u escapes for every control character (R-JSON-ESCAPES, shared with C21). Also: the value of an Any rebuilt from its expanded JSON form is marshaled with Deterministic: true. Also: map keys are parsed with the strconv function and bit size of the key kind; the exponent clean-up of the float writer drops a byte only where it is established to be the padding '0'.",
 		NotCovered: "the round trip on concrete messages and option combinations (EmitUnpopulated, UseProtoNames, UseEnumNumbers, …); Any expansion; FieldMask and Struct/Value conversions (value-level).",
 		Quick:      all("./encoding/protojson"),
 		Thorough:   all("./..."),
